@@ -392,6 +392,27 @@ def type_map_is_exact(ctx: Ctx, rid: str = "C11.R14") -> None:
         ctx.ob(rid, f, f"'{name}' maps to pa.{ctor}({', '.join(map(repr, args))})", None, ok,
                "exact representation" if ok else f"'{name}' -> `{norm_text(v) if v is not None else None}`: values of the declared type "
                "are stored in a narrower / coarser Arrow type and come back altered", text=name)
+    # writer's table and validator's table agree: every type of the table whose Arrow representation holds whole numbers only
+    # (integers, dates, times, timestamps - with or without zone) is in the set the strict validator screens for fractional
+    # floats; pyarrow truncates 3.5 in such a column instead of raising (D18). A type added to one table only is the gap.
+    WHOLE = ("int8", "int16", "int32", "int64", "uint8", "uint16", "uint32", "uint64", "date32", "date64", "time32", "time64",
+             "timestamp", "duration")
+    whole_keys = sorted(k for k, v in seen.items() if isinstance(v, ast.Call) and (dotted(v.func) or "").split(".")[-1] in WHOLE)
+    sets = []
+    for owner in [f.cls] if f.cls is not None else []:
+        for nm, cv in owner.consts.items():
+            members = [c.value for c in ast.walk(cv) if isinstance(c, ast.Constant) and isinstance(c.value, str)]
+            if members and isinstance(cv, (ast.Call, ast.Set, ast.Tuple, ast.List)) and set(members) <= set(seen) \
+                    and {"int", "long"} <= set(members):
+                sets.append((nm, set(members)))
+    if not sets:
+        raise AnalysisError("the validator's set of whole-number types was not found next to the Iceberg -> Arrow table")
+    nm, members = sets[0]
+    missing = [k for k in whole_keys if k not in members]
+    ctx.ob(rid, f, f"every whole-number type of the table is screened by {nm}", None, not missing,
+           f"{len(whole_keys)} whole-number types, all in {nm}" if not missing else
+           f"{missing} map to a whole-number Arrow type but are not in {nm}: a fractional float in such a column passes the strict "
+           "validation and is truncated by pyarrow instead of rejected", text="whole-number agreement")
 
 
 def one_shot_iterables(ctx: Ctx, rid: str, modules: Tuple[str, ...]) -> None:
